@@ -164,3 +164,86 @@ def list_body_roundtrip(body):
     back, rest = KNXIPFrame.from_knx(wire)
     assert len(rest) == 0 and type(back.body) is B
     assert back.body == body, (body, back.body)
+
+
+# ------------------------------------------------------------------ the other direction: built bodies parse back
+
+import enum as _enum  # noqa: E402
+import inspect as _inspect  # noqa: E402
+
+from xknx.knxip import ConnectRequestInformation, ConnectResponseData  # noqa: E402
+from xknx.knxip.knxip_enum import ConnectRequestType, TunnellingLayer  # noqa: E402
+
+_INT_RANGES = {"secure_session_id": 0xFFFF, "timer_value": (1 << 48) - 1, "wait_time": 0xFFFF, "lost_messages": 0xFFFF}
+
+
+def _field(rnd, B, name, par, hints):
+    ann, default = hints.get(name), par.default
+    if isinstance(default, _enum.Enum):
+        return rnd.choice(list(type(default)))
+    if name in ("control_endpoint", "data_endpoint", "discovery_endpoint"):
+        return _hpai(rnd) if rnd.random() < 0.8 else None
+    if name == "cri":
+        ct = rnd.choice(list(ConnectRequestType))
+        if ct is not ConnectRequestType.TUNNEL_CONNECTION:
+            return ConnectRequestInformation(connection_type=ct)  # (layer / address exist for tunnel connections only)
+        ia = IndividualAddress(rnd.randrange(65536)) if rnd.random() < 0.5 else None
+        return ConnectRequestInformation(connection_type=ct, knx_layer=rnd.choice(list(TunnellingLayer)), individual_address=ia)
+    if name == "crd":
+        ct = rnd.choice(list(ConnectRequestType))
+        if ct is not ConnectRequestType.TUNNEL_CONNECTION:
+            return ConnectResponseData(request_type=ct)
+        return ConnectResponseData(request_type=ct, individual_address=IndividualAddress(rnd.randrange(65536)))
+    if isinstance(default, bytes):
+        if len(default):
+            return bytes(rnd.randrange(256) for _ in range(len(default)))  # fixed-size field
+        if name == "encrypted_data":
+            n = rnd.choice((6, 7, 8, 20, 40))  # a wrapped frame has at least its own 6 octet header
+        elif name == "raw_cemi":
+            n = rnd.choice((1, 2, 11, 30))
+        else:
+            n = rnd.choice((0, 0, 2, 2, 4, 12, 30))  # feature values: even lengths (odd ones: known finding)
+        return bytes(rnd.randrange(256) for _ in range(n))
+    if isinstance(default, int):
+        hi = _INT_RANGES.get(name, 255)
+        return rnd.choice((0, 1, hi, rnd.randrange(hi + 1)))
+    raise AssertionError(f"no generator for {B.__name__}.{name}")
+
+
+def _fixed_body_cases(tier, B):
+    rnd = random.Random(int(os.environ.get("VERIF_SEED", "0") or 0) + 7 * (hash(B.__name__) % 1000))
+    sig = _inspect.signature(B.__init__)
+    pars = [(n, p) for n, p in sig.parameters.items() if n != "self"]
+    for _ in range(400 if tier == "quick" else 20000):
+        kw = {n: _field(rnd, B, n, p, {}) for n, p in pars}
+        yield (B, kw)
+
+
+_FIXED = [c for c in body_classes() if c not in LIST_BODIES]
+
+
+@standin("C21", cases=_fixed_body_cases, family=[dict(B=c) for c in _FIXED], kind="enum-native", exhaustive=False, bound="the 25 fixed-layout bodies built through their constructors: 400 (quick) / 20000 (thorough) seeded random instances each, every enum member, integers at the ends of their wire range, HPAIs / CRI / CRD variants, empty and non-empty variable octet fields; built -> frame -> octets -> parsed must give an equal body with nothing left over (a body the encoder refuses with ConversionError is not 'allowed on the wire')")
+def constructed_body_roundtrip(B, kw):
+    body = B(**kw)
+    name = B.__name__
+    # known findings (known_findings.json) are excluded by their exact region
+    if name in ("TunnellingFeatureInfo", "TunnellingFeatureResponse", "TunnellingFeatureSet") and len(kw["data"]) % 2 == 1:
+        return
+    if name == "ConnectResponse" and kw["status_code"].value != 0:
+        return
+    # a feature value is mandatory except in a response that reports an error (KNX 03_08_04 Tunnelling 4.4.x)
+    if name in ("TunnellingFeatureInfo", "TunnellingFeatureSet") and len(kw["data"]) == 0:
+        return
+    if name == "TunnellingFeatureResponse" and len(kw["data"]) == 0 and kw["return_code"].value == 0:
+        return
+    try:
+        out = body.to_knx()
+    except ConversionError:
+        return
+    assert len(out) == body.calculated_length(), (name, kw)
+    frame = KNXIPFrame.init_from_body(body)
+    wire = frame.to_knx()
+    assert frame.header.total_length == len(wire) == 6 + len(out), (name, kw)
+    back, rest = KNXIPFrame.from_knx(wire)
+    assert len(rest) == 0 and type(back.body) is B, (name, kw)
+    assert back.body == body, (name, kw, back.body)
